@@ -54,6 +54,30 @@ def load_api(only_auth=False):
             shutil.rmtree(d, ignore_errors=True)
     api["sign_all_value"] = sign_all_value
 
+    def root_history(t0, offers, persist=False):
+        verdicts, t = [], t0
+        d = tempfile.mkdtemp(prefix="cctw") if persist else None
+        try:
+            for u in offers:
+                try:
+                    A.verify_root(t, u)
+                    ok = True
+                except (C.CCT_Error, TypeError, ValueError):
+                    ok = False
+                verdicts.append(ok)
+                if ok:
+                    t = u
+                if persist:
+                    fn = os.path.join(d, "trusted.json")
+                    C.write_metadata_to_file(t, fn)
+                    t = C.load_metadata_from_file(fn)
+            return [verdicts, C.canonserialize(t)]
+        finally:
+            if d:
+                shutil.rmtree(d, ignore_errors=True)
+    api["root_history"] = root_history
+    api["root_history_persist"] = lambda t0, offers: root_history(t0, offers, True)
+
     def pub_of_seed(seed, _):
         return C.PublicKey.to_bytes(C.PrivateKey.from_bytes(seed).public_key())
     api["pub_of_seed"] = pub_of_seed
